@@ -317,7 +317,25 @@ func copyHeld(h map[string]string) map[string]string {
 }
 
 // collectAccesses walks a tree recording the lock sets of every shared access.
+var accessSeen map[string]bool
+
+func heldKey(h map[string]string) string {
+	var ks []string
+	for k, v := range h {
+		ks = append(ks, k+"="+v)
+	}
+	sort.Strings(ks)
+	return strings.Join(ks, ",")
+}
+
 func collectAccesses(n *TNode, held map[string]string, inAtomic int, out *[]accessInfo) {
+	if accessSeen != nil {
+		k := fmt.Sprintf("%p|%s", n, heldKey(held))
+		if accessSeen[k] {
+			return
+		}
+		accessSeen[k] = true
+	}
 	if n.ev != nil {
 		switch n.ev.Kind {
 		case "lock":
@@ -429,6 +447,7 @@ func protectedCells(acc []accessInfo) (prot map[string]bool, why map[string]stri
 }
 
 type txBuilder struct {
+	indeg     map[*TNode]int
 	writeLock map[string]map[string]bool
 	prot  map[string]bool
 	txs   []*transaction
@@ -466,6 +485,10 @@ func isBlocking(ev *Event) bool {
 }
 
 // build creates the transaction starting at node n (n.ev is its first event).
+// maxOutcomes: a transaction with more internal paths than this is split at the nodes where paths
+// re-join (finer scheduling granularity is always sound; it keeps the formula linear in the DAG).
+const maxOutcomes = 24
+
 func (b *txBuilder) build(n *TNode, held map[string]string) *transaction {
 	if t, ok := b.byNode[n]; ok {
 		return t
@@ -473,6 +496,23 @@ func (b *txBuilder) build(n *TNode, held map[string]string) *transaction {
 	t := &transaction{id: len(b.txs) + 1, tid: b.tid, start: n, first: n.ev, held: copyHeld(held)}
 	b.txs = append(b.txs, t)
 	b.byNode[n] = t
+	pend := b.expand(t, n, held, false)
+	if len(t.outcomes) > maxOutcomes {
+		t.outcomes = nil
+		pend = b.expand(t, n, held, true)
+	}
+	for _, p := range pend {
+		b.build(p.node, p.held)
+	}
+	return t
+}
+
+type pendingTx struct {
+	node *TNode
+	held map[string]string
+}
+
+func (b *txBuilder) expand(t *transaction, n *TNode, held map[string]string, cutAtMerge bool) []pendingTx {
 	type frame struct {
 		node   *TNode
 		guards []*Term
@@ -482,12 +522,12 @@ func (b *txBuilder) build(n *TNode, held map[string]string) *transaction {
 		atomic int
 		held   map[string]string
 	}
-	var pending []struct {
-		node *TNode
-		held map[string]string
-	}
+	var pending []pendingTx
 	var walk func(f frame)
 	walk = func(f frame) {
+		if !cutAtMerge && len(t.outcomes) > maxOutcomes {
+			return // the caller re-expands this transaction with cuts at merge points
+		}
 		ev := f.node.ev
 		// include ev
 		f.events = append(append([]*Event{}, f.events...), ev)
@@ -537,22 +577,19 @@ func (b *txBuilder) build(n *TNode, held map[string]string) *transaction {
 					cut = true
 				}
 			}
+			if !cut && cutAtMerge && b.indeg[c] > 1 && f.atomic == 0 {
+				cut = true
+			}
 			if cut {
 				t.outcomes = append(t.outcomes, &outcome{guard: g, events: f.events, evGuard: f.evG, next: c})
-				pending = append(pending, struct {
-					node *TNode
-					held map[string]string
-				}{c, f.held})
+				pending = append(pending, pendingTx{c, f.held})
 				continue
 			}
 			walk(frame{node: c, guards: g, events: f.events, evG: f.evG, post: f.post, atomic: f.atomic, held: f.held})
 		}
 	}
 	walk(frame{node: n, held: held})
-	for _, p := range pending {
-		b.build(p.node, p.held)
-	}
-	return t
+	return pending
 }
 
 // ---------- the transition system ----------
@@ -899,7 +936,23 @@ func (s *bmcSystem) encode() (base []*Term, obls []*obligation) {
 			}
 		}
 		npor := 0
+		// the reduction pays off only while it stays small: count the independent pairs first
+		pairs := 0
 		for a := 0; a < s.nthreads; a++ {
+			for b := 0; b < a; b++ {
+				for _, ta := range s.txs[a] {
+					for _, tbx := range s.txs[b] {
+						if independent(fp[ta], fp[tbx]) {
+							pairs++
+						}
+					}
+				}
+			}
+		}
+		if pairs*K > 40000 {
+			pairs = -1
+		}
+		for a := 0; a < s.nthreads && pairs >= 0; a++ {
 			for b := 0; b < a; b++ {
 				for _, ta := range s.txs[a] {
 					for _, tbx := range s.txs[b] {
@@ -1087,6 +1140,7 @@ func (w *World) buildBMCSystem(bs BMCSpec, tierN int, solver *Solver) (*bmcSyste
 		}
 		var acc []accessInfo
 		for _, tt := range trees {
+			accessSeen = map[string]bool{}
 			collectAccesses(tt.root, map[string]string{}, 0, &acc)
 		}
 		_, _, wl := protectedCells(acc)
@@ -1128,7 +1182,12 @@ func (w *World) buildBMCSystem(bs BMCSpec, tierN int, solver *Solver) (*bmcSyste
 	var acc []accessInfo
 	mset := map[string]bool{}
 	var collectM func(n *TNode)
+	seenM := map[*TNode]bool{}
 	collectM = func(n *TNode) {
+		if seenM[n] {
+			return
+		}
+		seenM[n] = true
 		if n.ev != nil && n.ev.Mutex != "" {
 			mset[n.ev.Mutex] = true
 		}
@@ -1144,6 +1203,7 @@ func (w *World) buildBMCSystem(bs BMCSpec, tierN int, solver *Solver) (*bmcSyste
 		if os.Getenv("SYMGO_DEBUG") != "" {
 			fmt.Fprintf(os.Stderr, "thread %s: %d tree nodes -> %d DAG nodes\n", tt.name, b, a)
 		}
+		accessSeen = map[string]bool{}
 		collectAccesses(tt.root, map[string]string{}, 0, &acc)
 		collectM(tt.root)
 	}
@@ -1156,7 +1216,22 @@ func (w *World) buildBMCSystem(bs BMCSpec, tierN int, solver *Solver) (*bmcSyste
 	s.rootTx = make([]*transaction, nthreads)
 	K := 0
 	for t, tt := range trees {
-		b := &txBuilder{prot: s.prot, writeLock: s.writeLock, byNode: map[*TNode]*transaction{}, tid: t}
+		b := &txBuilder{prot: s.prot, writeLock: s.writeLock, byNode: map[*TNode]*transaction{}, tid: t, indeg: map[*TNode]int{}}
+		{
+			seen := map[*TNode]bool{}
+			var cnt func(n *TNode)
+			cnt = func(n *TNode) {
+				if seen[n] {
+					return
+				}
+				seen[n] = true
+				for _, e := range n.edges {
+					b.indeg[e.to]++
+					cnt(e.to)
+				}
+			}
+			cnt(tt.root)
+		}
 		if len(tt.root.edges) != 1 {
 			return nil, fmt.Errorf("thread %s: the thread body must start with an event (got %d initial branches)", tt.name, len(tt.root.edges))
 		}
@@ -1238,6 +1313,9 @@ func (w *World) RunBMC(id string, bs BMCSpec, tier string, kfs map[string]KnownF
 			for _, tx := range txs {
 				nout += len(tx.outcomes)
 			}
+		}
+		if os.Getenv("SYMGO_DEBUG") != "" {
+			fmt.Fprintf(os.Stderr, "bmc system: K=%d outcomes=%d\n", sys.K, nout)
 		}
 		if nout*sys.K > 60000 {
 			br.Inconclusive = append(br.Inconclusive, fmt.Sprintf("%s: transition system too large to unroll (%d guarded outcomes x %d steps); the code under test branches more than the engine's bound allows", bs.Name, nout, sys.K))
@@ -1332,9 +1410,32 @@ func (w *World) RunBMC(id string, bs BMCSpec, tier string, kfs map[string]KnownF
 		}
 		obls = keep
 	}
+	// (terms are built here, before the parallel section: the term table is not thread-safe)
+	var ndNames []string
+	var mentions []*Term
+	for _, v := range nondetVars {
+		// make sure the variable is declared even if no constraint mentions it
+		mentions = append(mentions, sys.tb.Mention(v))
+		ndNames = append(ndNames, smtName(v.Name))
+	}
+	for _, v := range setupVars(bmcSetupPC) {
+		mentions = append(mentions, sys.tb.Mention(v))
+		ndNames = append(ndNames, smtName(v.Name))
+	}
 	results := make([]oblRes, len(obls))
 	var wg sync.WaitGroup
-	sem := make(chan struct{}, 16)
+	// bound the number of concurrent solver processes by the formula size (z3 needs roughly 40 bytes of
+	// memory per byte of SMT text on these unrollings)
+	par := 16
+	if est := len(baseText) * 40; est > 0 {
+		if p := (24 << 30) / est; p < par {
+			par = p
+		}
+	}
+	if par < 1 {
+		par = 1
+	}
+	sem := make(chan struct{}, par)
 	for i, ob := range obls {
 		wg.Add(1)
 		go func(i int, ob *obligation) {
@@ -1343,19 +1444,16 @@ func (w *World) RunBMC(id string, bs BMCSpec, tier string, kfs map[string]KnownF
 			defer func() { <-sem }()
 			c := p.Child()
 			c.Assert(ob.term)
-			var ndNames []string
-			for _, v := range nondetVars {
-				// make sure the variable is declared even if no constraint mentions it
-				c.Assert(sys.tb.Mention(v))
-				ndNames = append(ndNames, smtName(v.Name))
-			}
-			for _, v := range setupVars(bmcSetupPC) {
-				ndNames = append(ndNames, smtName(v.Name))
+			for _, m := range mentions {
+				c.Assert(m)
 			}
 			text := baseText + c.String() + "(check-sat)\n"
 			{
 				// values of the state variables only (get-model would print every definition)
 				text += "(get-value (" + strings.Join(append(append([]string{}, stateVars...), ndNames...), " ") + "))\n"
+			}
+			if d := os.Getenv("SYMGO_DUMP"); d != "" {
+				os.WriteFile(filepath.Join(d, "bmc_"+bs.Name+"_"+sanitize(ob.name)+".smt2"), []byte(text), 0o644)
 			}
 			r := RunOneShot(bmcSolverKind(), text, timeout, scratch)
 			or := oblRes{ob: ob, res: r.Res, dur: r.Dur, out: r.Out}
